@@ -151,6 +151,16 @@ func (e *pathEnv) knownNil(v ssa.Value) (known, isNil bool) {
 			}
 		}
 	}
+	// an element of a slice table that never holds nil (a.channelBindings[i])
+	if theWorld != nil {
+		if ld, ok := v.(*ssa.UnOp); ok && ld.Op == token.MUL {
+			if ia, isIA := ld.X.(*ssa.IndexAddr); isIA {
+				if _, fld, isF := fieldLoad(theWorld.resolveLoad(ia.X)); isF && theWorld.sliceNeverHoldsNil(fld) {
+					return true, false
+				}
+			}
+		}
+	}
 	if theWorld != nil {
 		if _, isCall := v.(*ssa.Call); isCall && theWorld.absint().definitelyNonNil(v) {
 			return true, false // fmt.Errorf, errors.New, constructors that always allocate
